@@ -4,6 +4,7 @@ package sh
 
 import (
 	"context"
+	"database/sql"
 	"encoding/binary"
 	"fmt"
 	"hash/crc32"
@@ -20,6 +21,7 @@ import (
 	"github.com/simpleiot/simpleiot/client"
 	"github.com/simpleiot/simpleiot/data"
 	"github.com/simpleiot/simpleiot/store"
+	_ "modernc.org/sqlite"
 )
 
 // Inst is one running instance.
@@ -317,4 +319,28 @@ func (s Snapshot) CheckHashes() string {
 		}
 	}
 	return ""
+}
+
+// ReadJWTKey reads the token-signing key straight from a store file.
+func ReadJWTKey(file string) ([]byte, error) {
+	db, err := sql.Open("sqlite", file+"?_pragma=busy_timeout(8000)")
+	if err != nil {
+		return nil, err
+	}
+	defer db.Close()
+	var k []byte
+	err = db.QueryRow("SELECT jwt_key FROM meta").Scan(&k)
+	return k, err
+}
+
+// ReadRootID reads the root id straight from a store file.
+func ReadRootID(file string) (string, error) {
+	db, err := sql.Open("sqlite", file+"?_pragma=busy_timeout(8000)")
+	if err != nil {
+		return "", err
+	}
+	defer db.Close()
+	var k string
+	err = db.QueryRow("SELECT root_id FROM meta").Scan(&k)
+	return k, err
 }
